@@ -118,6 +118,14 @@ CLAIMS["C18"] = ("proof", "Lean 4 theorems: every C entry point IS a composition
                  "op file is executed through the C API (capi_driver, its own translation unit), through the C++ API (world_driver variant) and on the Lean "
                  "model, for all 32 subsets of the function table x default value on/off; entity digests and job callback logs are diffed three ways.",
                  WORLD_NOTE + "; the plain-data refinement (instance with defaults vs without) is covered by the tie with wildcards, not proved")
+CLAIMS["C17"] = ("proof", "Lean 4 theorems over a process-level product model (world-id allocator x world models) + multi-world correspondence",
+                 "auto_id_fresh, live_worlds_distinct_ids, auto_id_in_range (no bound on the number of worlds ever created: churn_run, id_after_churn), "
+                 "own_handles_valid / own_handle_roundtrip (through C16's generated pack/readers), foreign_handles_invalid, valid_in_one_world_only, "
+                 "foreign_handle_harmless, frame / frame_history (an operation on one world leaves every other world and the allocator unchanged); the "
+                 "harness runs several real worlds in one process (thousands created and destroyed, crossing 1024 and 2048, shared and private contexts, "
+                 "locked sections open in several worlds) and checks after every op the observations of ALL live worlds.",
+                 WORLD_NOTE + "; at most 1024 automatically numbered worlds alive at once; one thread drives all worlds (the cached dispatcher thread id is "
+                 "constant); systems' independence only through C14's model per world")
 CLAIMS["C07"] = ("proof", "Lean 4 invariant proof over a model of version stamps / job filters + correspondence on generated histories",
                  "no_missed_write and no_missed_write_history (a pending write / dirty mark / arrival / relocation / other job's write of a checked component "
                  "of an entity in a matching archetype is processed by the next run of the job, wherever update() and other jobs' runs fall in between), "
